@@ -595,6 +595,8 @@ type Path struct {
 	frames  []*FrameState
 	brk     string
 	clock   string // last clock reading (monotone)
+	panicking bool // unwinding after a panic (deferred calls running)
+	recovered bool // a deferred call has recovered the current panic
 	nonnil  map[string]bool
 	oldSnap *Snap // entry (or post-lock for atomic functions)
 	atomicTaken bool
@@ -610,7 +612,7 @@ type lockRef struct {
 }
 
 func (p *Path) clone(newID int) *Path {
-	q := &Path{id: newID, epoch: p.epoch, brk: p.brk, clock: p.clock, oldSnap: p.oldSnap, atomicTaken: p.atomicTaken}
+	q := &Path{id: newID, epoch: p.epoch, brk: p.brk, clock: p.clock, oldSnap: p.oldSnap, atomicTaken: p.atomicTaken, panicking: p.panicking, recovered: p.recovered}
 	q.assumes = append([]string(nil), p.assumes...)
 	q.trace = append([]string(nil), p.trace...)
 	q.notes = append([]string(nil), p.notes...)
